@@ -82,6 +82,9 @@ pub struct SimResolver {
     pub chain_len: u64,
     pub ns: Option<&'static Namespace<'static>>,
     pub reentries: Cell<u64>,
+    /// a nested evaluation started by the resolver is running
+    pub nested: Cell<bool>,
+    pub nested_calls: Cell<u64>,
 }
 
 
@@ -151,6 +154,15 @@ pub fn gen_store(rng: &mut Rng) -> BTreeMap<String, Dict> {
 
 impl SimResolver {
     fn step(&self) {
+        if self.nested.get() {
+            // callbacks of the resolver's own nested query have their own budget (same size)
+            let n = self.nested_calls.get() + 1;
+            self.nested_calls.set(n);
+            if n > self.max_ref_calls * (self.reentries.get() + 1) {
+                std::panic::resume_unwind(Box::new(StepBudgetExceeded { what: "resolver-callbacks", n }));
+            }
+            return;
+        }
         let n = self.ref_calls.get() + 1;
         self.ref_calls.set(n);
         if n > self.max_ref_calls {
@@ -250,6 +262,15 @@ impl PathResolver for SimResolver {
                     let _ = ns.fits(&sym, &Symbol::from("entity"));
                 }
                 self.reentries.set(n0 + 1);
+                // ... and applies a visibility rule of its own to the record it is about to hand out:
+                // a relationship query evaluated on this same thread, inside the outer evaluation
+                if !self.nested.get() {
+                    self.nested.set(true);
+                    if let (Some(rec), Ok(rule)) = (self.lookup(reference), Filter::try_from("containedBy? ^equip or containedBy? @r0")) {
+                        let _ = rule.eval(&EvalContext::make(&rec, ns, self));
+                    }
+                    self.nested.set(false);
+                }
             }
         }
         self.lookup(reference)
@@ -268,6 +289,31 @@ fn exit_parse_filter(doc: &[u8]) {
 }
 
 pub fn run_case(case: &Case, ns: &'static Namespace<'static>) -> Outcome {
+    if case.scenario == "filter-small-stack" {
+        // a flat filter parsed (and evaluated once) on a thread with a small but legal stack, as the
+        // first thing the process does: lazily built tables (units, zones) are built on that stack
+        let kb = case.extra_usize("stack_kb").unwrap_or(256);
+        let doc = case.doc_bytes();
+        let mut out = Outcome::default();
+        let h = std::thread::Builder::new().stack_size(kb * 1024).spawn(move || {
+            if let Ok(text) = std::str::from_utf8(&doc) {
+                if let Ok(f) = Filter::try_from(text) {
+                    let mut d = Dict::new();
+                    d.insert("x".into(), Value::make_number(1.0));
+                    use libhaystack::filter::Filtered;
+                    let _ = d.filter(&f);
+                }
+            }
+        });
+        let ok = h.map(|h| h.join().is_ok()).unwrap_or(false);
+        out.nontrivial = true;
+        out.probe("fault:small-thread-stack", 1);
+        if !ok {
+            out.violate("C09 panic filter-small-stack".into(), "the parsing thread panicked".into());
+        }
+        out.fingerprint = mix(&[kb as u64, ok as u64]);
+        return out;
+    }
     if case.scenario == "filter-thread-exit" {
         // the filter is parsed from the destructor of a thread-local while its thread winds down
         let mut out = Outcome::default();
@@ -388,6 +434,8 @@ pub fn run_case(case: &Case, ns: &'static Namespace<'static>) -> Outcome {
                 chain_len,
                 ns: Some(ns),
                 reentries: Cell::new(0),
+                nested: Cell::new(false),
+                nested_calls: Cell::new(0),
             };
             let subjects: Vec<Dict> = if chain_len > 0 { vec![chain_record(0, chain_len)] } else { store.values().cloned().collect() };
             let (caught, _) = guarded(0, || -> Vec<bool> {
@@ -534,6 +582,14 @@ impl C09 {
                     }
                 }
             }
+        }
+        // flat filters on a small (64 KiB) thread stack, first thing in a fresh process: the lazily
+        // built unit and zone tables are built on that stack (the unchanged tree needs < 32 KiB)
+        for f in ["x < 5kW", "x == 5", "ts > 2021-01-01T00:00:00-05:00 New_York", "a == `u` and b->c", "d >= 2021-01-01 and t < 12:00:00", "r == @r \"dis\" or ^sym"] {
+            let mut c = Case::new("C09", "filter-small-stack", f.as_bytes());
+            c.extra.insert("stack_kb".into(), 64u64.into());
+            c.origin = format!("small stack 64 KiB: {f}");
+            cases.push(c);
         }
         // long acyclic ref chains under the evaluator (one record per hop, served lazily)
         let chain_lens: Vec<u64> = match self.ctx.tier {
